@@ -67,7 +67,7 @@ def fp_compare_invariants():
     return out
 
 
-def systematic_fp(rng):
+def systematic_fp(rng, full=False):
     """floating point value source x clock operand x use position x way the template enters the system"""
     GD = ("clock x; clock y; hybrid clock hx; double d; int i; const int N = 2; broadcast chan bc; const double D = 1.5; "
           "typedef double real; real r; typedef struct { double w; int n; } SD; SD sd; double da[2]; const double CDA[2] = { 0.5, 1.5 }; "
@@ -98,7 +98,7 @@ def systematic_fp(rng):
                 uses.append(("update", {"update": "%s = %s" % (ct, vt)}))
                 uses.append(("update-second", {"update": "i = 1, %s = %s" % (ct, vt)}))
             # sample the uses (the full product is in the thorough tier through more seeds): two per (value, clock)
-            for un, kw in rng.sample(uses, 3):
+            for un, kw in (uses if full else rng.sample(uses, 3)):
                 pars = [p for p in (vpar, cpar) if p]
                 args = [a for a, p in ((varg, vpar), (carg, cpar)) if p]
                 for how in ("plain", "free-parameter", "partial-instance", "bound-instance"):
@@ -121,7 +121,7 @@ def systematic_fp(rng):
                         plist = ["const int[0,2] id"] + plist
                         sysl = "P1 = P(%s);\nsystem P1;" % ", ".join(["1"] + args)
                     t = templ("P", tdecl=ctd, params=", ".join(plist), **kw)
-                    out.append(("fp-systematic", "%s/%s/%s/%s" % (vn, cn, un.split("/")[0], how), model(GD, [t], sysl), {0}))
+                    out.append(("fp-systematic", "%s/%s/%s/%s" % (vn, cn, un, how), model(GD, [t], sysl), {0}))
         if vinit:
             out.append(("fp-systematic", "%s/global-clock-init" % vn, model(GD + " clock z = %s;" % vt, [templ("P")], "system P;"), {0}))
             out.append(("fp-systematic", "%s/local-clock-init" % vn, model(GD, [templ("P", tdecl="clock lz = %s;" % vt)], "system P;"), {0}))
@@ -217,7 +217,7 @@ def run(rep, tier, seed):
                 ("control", "hybrid-fp-update", model(GDECL, [templ("P", update="hx = 1.5")], sys1), set()),
                 ("control", "int-clock-init", model(GDECL + " clock z = 2;", [templ("P")], sys1), set())]
     items += controls
-    items += systematic_fp(rng)
+    items += systematic_fp(rng, full=(tier != "quick"))
     # metamorphic: uninstantiated template carrying the feature must not change the verdict of a feature-free model
     feature_templates = [templ("U", guard="x < 1.5"), templ("U", update="x = 1.5"), templ("U", inv="x' == 2"), templ("U", tdecl="clock lz = 0.5;"),
                          templ("U", inv="x <= 1.5")]
